@@ -330,7 +330,11 @@ func (w *world) finalCheck() {
 
 // askSig sends a signature request to one member and returns its signature (nil if none).
 func (w *world) askSig(net *simnet.Net, to int, id string, a *anypb.Any) []byte {
-	ch := net.Inject(w.ids[w.faulty], w.ids[to], protoSig, frame(&pb.BCastSigRequest{Id: id, Message: a}), time.Duration(verifrt.Intn("a", 20))*time.Millisecond)
+	return w.askSigAt(net, to, id, a, time.Duration(verifrt.Intn("a", 20))*time.Millisecond)
+}
+
+func (w *world) askSigAt(net *simnet.Net, to int, id string, a *anypb.Any, delay time.Duration) []byte {
+	ch := net.Inject(w.ids[w.faulty], w.ids[to], protoSig, frame(&pb.BCastSigRequest{Id: id, Message: a}), delay)
 	b, st := verifrt.RecvTimeout(ch, nil, 90*time.Second)
 	if st != 0 || b == nil {
 		return nil
@@ -362,6 +366,41 @@ func (w *world) collect(net *simnet.Net, session []byte, id string, payload stri
 			}
 		}
 	}
+	return a, sigs
+}
+
+// collectParallel asks every member at once (one request goroutine per member).
+func (w *world) collectParallel(net *simnet.Net, session []byte, id string, payload string, who []int, delay time.Duration) (*anypb.Any, [][]byte) {
+	a, _ := anypb.New(wrapperspb.String(payload))
+	sigs := make([][]byte, w.n)
+	own, _ := k1util.Sign(w.keys[w.faulty], hashAny(session, id, a))
+	sigs[w.faulty] = own
+	var mu sync.Mutex
+	var wg sync.WaitGroup
+	for _, to := range who {
+		if to == w.faulty {
+			continue
+		}
+		to := to
+		wg.Add(1)
+		verifrt.Go(func() {
+			defer wg.Done()
+			sg := w.askSigAt(net, to, id, a, delay)
+			if sg == nil {
+				return
+			}
+			d := hashAny(session, id, a)
+			if ok, _ := k1util.Verify65(w.keys[to].PubKey(), d, sg); ok {
+				w.mu.Lock()
+				w.signed[to][string(d)] = true
+				w.mu.Unlock()
+			}
+			mu.Lock()
+			sigs[to] = sg
+			mu.Unlock()
+		})
+	}
+	verifrt.WGWait(&wg)
 	return a, sigs
 }
 
@@ -401,7 +440,26 @@ func (w *world) adversary(ctx context.Context, netA *simnet.Net, fhA *simnet.Hos
 		id := msgIDs[verifrt.Intn("a", len(msgIDs))]
 		p1 := fmt.Sprintf("byz-%s-v1", id)
 		p2 := fmt.Sprintf("byz-%s-v2", id)
-		switch verifrt.Intn("a", 8) {
+		switch verifrt.Intn("a", 9) {
+		case 8: // concurrent equivocation: signature requests for two payloads of one id are in flight
+			// at the same time at every member (the once-per-(peer,id) rule must hold under concurrency)
+			verifrt.Probe("adv:concurrent-equivocation")
+			var a1, a2 *anypb.Any
+			var s1, s2 [][]byte
+			o1, o2 := shuffled(others), shuffled(others)
+			var cw sync.WaitGroup
+			cw.Add(2)
+			at := time.Duration(verifrt.Intn("a", 10)) * time.Millisecond // both requests reach a member in the same instant
+			verifrt.Go(func() { defer cw.Done(); a1, s1 = w.collectParallel(netA, w.session, id, p1, o1, at) })
+			verifrt.Go(func() { defer cw.Done(); a2, s2 = w.collectParallel(netA, w.session, id, p2, o2, at) })
+			verifrt.WGWait(&cw)
+			for _, to := range others {
+				if verifrt.Intn("a", 2) == 0 {
+					w.sendMsg(netA, to, &pb.BCastMessage{Id: id, Message: a1, Signatures: s1})
+				} else {
+					w.sendMsg(netA, to, &pb.BCastMessage{Id: id, Message: a2, Signatures: s2})
+				}
+			}
 		case 0: // behave: one payload, full signature set, everyone
 			a, sigs := w.collect(netA, w.session, id, p1, shuffled(others))
 			for _, to := range others {
